@@ -82,9 +82,14 @@ def seeded_cases(ctx):
         q, n, t = FIELDS[f][0], k + r, r // 2
         for cnt in counts:
             cnt = {"t": t, "t-1": max(t - 1, 0), "t+1": t + 1, "rand": rng.randint(0, t), "half": (t + 1) // 2}.get(cnt, cnt)
-            out.append(ev("dec", f, [r], rand_data(rng, q, k), rand_errs(rng, q, n, cnt, rng.random() < 0.6)))
+            data, errs = rand_data(rng, q, k), rand_errs(rng, q, n, cnt, rng.random() < 0.6)
+            if errs and data[0] and rng.random() < 0.15:      # the error wipes out the leading symbol(s) of the word
+                errs = [[0, data[0]]] + [p for p in errs[1:] if p[0] != 0]
+                if len(errs) >= 2 and k >= 2 and data[1] and rng.random() < 0.5:
+                    errs = errs[:1] + [[1, data[1]]] + [p for p in errs[2:] if p[0] > 1]
+            out.append(ev("dec", f, [r], data, errs))
 
-    reps = 1 if ctx.quick else 8
+    reps = 1 if ctx.quick else 12
     for f, k, r in shapes:
         big = (k + r) * r > 60000
         for _ in range(1 if big else reps):
@@ -97,11 +102,22 @@ def seeded_cases(ctx):
             ext += [(q // 2, q // 2 - 1), (3, q - 4)]
         for k, r in ext:
             add(f, k, r, ["t", 0, "t+1"] if (k + r) * r > 60000 else ["t", "t", 0, 1, "t+1", "rand"])
-        nrand = (12 if ctx.quick else 150) if q <= 256 else (4 if ctx.quick else 30)
+        nrand = (12 if ctx.quick else 300) if q <= 256 else (4 if ctx.quick else 60)
         for _ in range(nrand):
             n = rng.randint(2, min(q - 1, 300 if q > 256 else q - 1))
             r = rng.randint(1, min(n - 1, 70))
             add(f, n - r, r, ["t", "rand", "t+1"] if ctx.quick else ["t", "t", "rand", 1, 0, "t+1"])
+    # position sweeps on full-length words (n = q - 1, r = 4): a pair of errors at p and p + 17 for every p (quick: a
+    # stride for the two big fields), so that every root of the locator polynomial / every position is hit
+    for f, (q, _, _) in FIELDS.items():
+        n = q - 1
+        stride = 1 if q <= 256 else (8 if q == 1024 else 64) if ctx.quick else (1 if q == 1024 else 2)
+        data = rand_data(rng, q, n - 4)
+        ps = sorted(set(range(0, n, stride)) | {0, 1, n - 2, n - 1})
+        for p in ps:
+            out.append(ev("dec", f, [4], data, sorted([[p, rng.randrange(1, q)], [(p + 17) % n, rng.randrange(1, q)]])))
+        for p in ps[::max(1, len(ps) // 64)]:                    # single errors take a shortcut in the decoder
+            out.append(ev("dec", f, [4], data, [[p, rng.randrange(1, q)]]))
     # encoder only: generator cache exercised in non-monotone order of degrees, every r of a small field
     for f in (1, 2, 3, 4):
         q = FIELDS[f][0]
@@ -224,6 +240,7 @@ def validate_balanced(ctx, obs):
     with concurrent.futures.ThreadPoolExecutor(max_workers=nb) as ex:
         for r in ex.map(one, range(nb)):
             out.extend(r)
+    ctx.traces += nb                               # trace files of the real code consumed by TLC
     return sorted(out, key=lambda p: p[0])
 
 
@@ -233,24 +250,27 @@ def key_of(o):
     return (o["op"], o["f"], o["a"][0], tuple(o["x"]), tuple(map(tuple, o["e"])))
 
 
-def judge(ctx, inputs, label, may_retry=True):
+def judge(ctx, inputs, labels, may_retry=True):
+    """inputs -> real code -> Trace_RS (one balanced validation round for all of them); labels[i] names the origin."""
     if not inputs:
-        return
+        return []
     obs = vlib.drive(ctx, "c04", inputs)
     bad = validate_balanced(ctx, obs)
-    ctx.traces += 1
     for o in obs:
-        ctx.count_case(key_of(o), nontrivial=not (o["op"] == "dec" and not o["e"]) )
-    beyond = 0
+        ctx.count_case(key_of(o), nontrivial=not (o["op"] == "dec" and not o["e"]))
+    beyond = nrej = 0
     for gi, ent in bad:
-        o = obs[gi]
+        o, label = obs[gi], labels[gi]
         if ent[1] == "beyond":                       # informational: more errors than the capacity, no claim
             beyond += 1
             continue
         if ent[1] in ("input", "harness"):
-            raise vlib.Infra("event %d of %s is not judgeable (%s): %s" % (gi, label, ent, json.dumps(inputs[gi])[:400]))
+            raise vlib.Infra("event %d (%s) is not judgeable (%s): %s" % (gi, label, ent, json.dumps(inputs[gi])[:400]))
         replay = [dict(inputs[gi], fresh=1)]
-        if may_retry:                                # does it reproduce on its own with a fresh encoder?
+        nrej += 1
+        if nrej > 60:                                # the verdict is settled; keep the run short
+            continue
+        if may_retry and nrej <= 3 and o["op"] in ("enc", "dec"):   # does it reproduce on its own with a fresh encoder?
             o1 = vlib.drive(ctx, "c04", replay)
             if not vlib.validate(ctx, "Trace_RS", o1, shards=1):
                 replay = [x for x in inputs[:gi + 1] if x["f"] == o["f"] and x["op"] in ("enc", "dec")][-400:]
@@ -274,25 +294,27 @@ def sample_of(o):
 
 
 def run(ctx):
-    run_design(ctx)
+    pool = concurrent.futures.ThreadPoolExecutor(max_workers=1)
+    design = pool.submit(run_design, ctx)          # design-level model checking runs next to the binding phases
     # (A) GF(2^m) arithmetic of the real tables, judged against clmul mod p
     gin, rows = gf_inputs(ctx)
-    obs = judge(ctx, gin, "GF arithmetic")
-    ctx.sample(sample_of(obs[len(FIELDS) + 300]))
     ctx.extra["gf_rows_validated"] = {FIELDS[f][2]: "%d of %d rows x %d" % (len(r), FIELDS[f][0], FIELDS[f][0]) for f, r in rows.items()}
     # (B) TLC-generated error patterns on short codes (all single and double positions)
     gen = generated_cases(ctx)
-    ctx.note("MC_RS generated %d cases (all error patterns of weight <= MaxErr on short codes of the six fields)" % len(gen))
-    obs = judge(ctx, [ev("dec", g["f"], [g["r"]], g["x"], g["e"], g["c"]) for g in gen], "TLC-generated case")
-    ctx.sample(sample_of(obs[len(obs) // 2])); ctx.sample(sample_of(obs[-1]))
-    # (C) seeded cases over the shapes of QR / Data Matrix / Aztec and arbitrary shapes
+    ctx.note("MC_RS generated %d cases (all error patterns of weight <= min(MaxErr, capacity+1) on short codes of the six fields)" % len(gen))
+    gen = [ev("dec", g["f"], [g["r"]], g["x"], g["e"], g["c"]) for g in gen]
+    # (C) seeded cases over the shapes of QR / Data Matrix / Aztec, arbitrary shapes, position sweeps
     sc = seeded_cases(ctx)
-    obs = judge(ctx, sc, "seeded case")
-    for i in (0, len(obs) // 3, 2 * len(obs) // 3):
+    inputs = gin + gen + sc
+    labels = ["GF arithmetic"] * len(gin) + ["TLC-generated case"] * len(gen) + ["seeded case"] * len(sc)
+    obs = judge(ctx, inputs, labels)
+    g0, s0 = len(gin), len(gin) + len(gen)
+    for i in (len(FIELDS) + 300, g0 + len(gen) // 2, s0 - 1, s0, s0 + len(sc) // 3, s0 + 2 * len(sc) // 3):
         ctx.sample(sample_of(obs[i]))
-    within = sum(1 for o in obs if o["op"] == "dec" and len(o["e"]) <= o["a"][0] // 2)
-    ctx.extra["seeded"] = "%d codec events (%d decode events within capacity, %d beyond: no claim)" % (
-        len(obs), within, sum(1 for o in obs if o["op"] == "dec") - within)
+    dec = [o for o in obs[s0:] if o["op"] == "dec"]
+    within = sum(1 for o in dec if len(o["e"]) <= o["a"][0] // 2)
+    ctx.extra["seeded"] = "%d codec events (%d decode events within capacity, %d beyond: no claim)" % (len(sc), within, len(dec) - within)
+    design.result()
     ctx.exhaustive = False
     return vlib.finish(
         ctx,
@@ -309,5 +331,5 @@ def run(ctx):
 
 def replay(ctx, path):
     r = json.load(open(path))
-    judge(ctx, r["inputs"], "replay", may_retry=False)
+    judge(ctx, r["inputs"], ["replay"] * len(r["inputs"]), may_retry=False)
     return vlib.finish(ctx, rule="replay of recorded inputs")
